@@ -161,9 +161,11 @@ type Frame struct {
 	top     bool
 	loops   map[*ssa.BasicBlock]*loopInfo
 	callOrd map[string]int
+	matched map[*AssertSpec]bool // at-call clauses that found their call
 	results []Term
 	retPCs  []string
 	rets    []retInfo
+	labels  map[string]*State
 	allocByName map[string][]*ssa.Alloc
 	curBlock *ssa.BasicBlock
 	curLoopHdr *ssa.BasicBlock
@@ -1147,7 +1149,11 @@ func (vc *VC) execFunc(fr *Frame, args []Term, st *State, pc string) ([]Term, *S
 type modSet struct {
 	cells map[*ssa.Alloc]bool
 	heap  map[string]bool
-	all   bool
+	// nonfresh[k]: key k may be written at an object that existed before the function (or loop) started;
+	// keys in heap but not in nonfresh are written only at objects the function allocates itself.
+	nonfresh map[string]bool
+	freshOK  map[string]bool // scratch: keys a call merged from a callee whose writes to them are fresh-only
+	all      bool
 }
 
 func (vc *VC) loopModSet(fr *Frame, li *loopInfo) *modSet {
